@@ -59,6 +59,7 @@ const (
 	OBv2Int // unsigned value of BV as Int
 	ORDiv   // Real division
 	OAddC   // (x,y,c) width w+1: x+y+c exactly
+	OSInt   // signed value of BV as Int
 	OSubB   // (x,y,c) width w+1: low w bits = x-y-c mod 2^w, top bit = borrow
 )
 
@@ -88,15 +89,16 @@ type UFSig struct {
 }
 
 type Builder struct {
-	tab   map[string]*Term
-	n     int
-	Vars  []*Term
-	UFs   map[string]UFSig
-	fresh int
+	tab        map[string]*Term
+	n          int
+	Vars       []*Term
+	UFs        map[string]UFSig
+	fresh      int
+	SignedVars map[string]bool // input variables of signed Go types (LIA declares them in the signed range)
 }
 
 func NewBuilder() *Builder {
-	return &Builder{tab: map[string]*Term{}, UFs: map[string]UFSig{}}
+	return &Builder{tab: map[string]*Term{}, UFs: map[string]UFSig{}, SignedVars: map[string]bool{}}
 }
 
 var bigOne = big.NewInt(1)
@@ -1053,6 +1055,19 @@ func (b *Builder) ILt(x, y *Term) *Term {
 	}
 	return b.mk(OILt, SBool, nil, 0, 0, "", x, y)
 }
+func (b *Builder) SInt(x *Term) *Term {
+	if x.IsConst() {
+		return b.IntConst(signedVal(int(x.S), x.K))
+	}
+	for x.Op == OSExt {
+		x = x.Args[0]
+	}
+	if x.Op == OZExt || b.Maybe(x).Bit(int(x.S)-1) == 0 {
+		return b.Bv2Int(x)
+	}
+	return b.mk(OSInt, SInt, nil, 0, 0, "", x)
+}
+
 func (b *Builder) Bv2Int(x *Term) *Term {
 	if x.IsConst() {
 		return b.IntConst(x.K)
@@ -1225,6 +1240,8 @@ func (b *Builder) Eval(t *Term, env map[string]*big.Int, memo map[int]*big.Int) 
 		r = new(big.Int).Div(a[0], a[1])
 	case OBv2Int:
 		r = a[0]
+	case OSInt:
+		r = signedVal(int(t.Args[0].S), a[0])
 	default:
 		panic(fmt.Sprintf("Eval: unsupported op %d", t.Op))
 	}
@@ -1512,6 +1529,8 @@ func (b *Builder) rebuild(t *Term, a []*Term) *Term {
 		return b.ILt(a[0], a[1])
 	case OBv2Int:
 		return b.Bv2Int(a[0])
+	case OSInt:
+		return b.SInt(a[0])
 	case ORDiv:
 		return b.RDiv(a[0], a[1])
 	case OAddC:
